@@ -67,6 +67,10 @@ func (vm *Type) Run(retResult bool) (value.Type, error) {
 	for ip < len(*cs) {
 		instr := (*cs)[ip]
 
+		if verifOn {
+			verifStep(vm, ctxp, ip, m, tmp)
+		}
+
 		// TODO allow tracing flag
 		// fmt.Printf("%8d | %8p | %v\n", ip, ctxp, instr)
 
